@@ -60,6 +60,8 @@ type Ctx struct {
 	alts   [][]decision
 
 	pc     []string
+	// FirstSeen: Int-coded atoms whose first character the code under test has read
+	FirstSeen map[string]bool
 	pcHash [20]byte
 
 	nvars   int
@@ -350,7 +352,7 @@ func (c *Ctx) CheckModel(t string, terms []string) (Result, map[string]string) {
 		c.S.Assert(t)
 		c.S.Assert(andTerm(generic...))
 		if c.S.Check() == Sat {
-			m := c.S.GetValues(withLengths(terms))
+			m := c.S.GetValues(c.withLengths(terms))
 			c.S.Pop()
 			return Sat, m
 		}
@@ -361,7 +363,7 @@ func (c *Ctx) CheckModel(t string, terms []string) (Result, map[string]string) {
 	r := c.S.Check()
 	var m map[string]string
 	if r == Sat {
-		m = c.S.GetValues(withLengths(terms))
+		m = c.S.GetValues(c.withLengths(terms))
 	}
 	c.S.Pop()
 	return r, m
@@ -369,11 +371,15 @@ func (c *Ctx) CheckModel(t string, terms []string) (Result, map[string]string) {
 
 // withLengths adds, for identifier-coded atoms, their length (which the code
 // under test can observe through len()) to the terms of a model query.
-func withLengths(terms []string) []string {
+func (c *Ctx) withLengths(terms []string) []string {
 	all := append([]string{}, terms...)
 	for _, t := range terms {
 		if len(t) > 3 && t[0] == 'c' && t[2] == '_' && t[1] != 'T' {
 			all = append(all, "(clen "+t+")")
+			// the first character only when the code under test looked at it
+			if c.FirstSeen[t] {
+				all = append(all, "(cfirst "+t+")")
+			}
 		}
 	}
 	return all
